@@ -493,6 +493,7 @@ class Engine:
         self._abs = None
         self._known_cache = {}
         self._known_sig = {}
+        self.immutable_ids = set()
         self.segments = {}  # ostream id -> [(producer, appended segment)] in program order on this path
         self.ctx_mode = "prove"
         self.seq_facts = {}
@@ -1356,7 +1357,15 @@ class Engine:
             res = pure(self.ctx, recv, args, kwargs)
             self.event("pure", str(name), recv, args, kwargs, node, res)
             return res
-        res = self.fresh_opq("r_" + str(name).split(":")[-1].split(".")[-1])
+        short = str(name).split(":")[-1].split(".")[-1]
+        if short in getattr(self.contract, "int_functions", ()):
+            res = self.fresh_int("r_" + short)
+            self.event("call", str(name), recv, args, kwargs, node, res)
+            return res
+        res = self.fresh_opq("r_" + short)
+        if short in getattr(self.contract, "immutable_results", ()):
+            self.immutable_ids.add(res.t.get_id())
+            self._keep.append(res)
         # an unknown callee may write into every modelled object it can reach through its arguments
         for a in list(args) + list(kwargs.values()):
             if isinstance(a, Ref):
@@ -1368,7 +1377,8 @@ class Engine:
             if idx == 1:
                 self.event("raise-from", str(name), recv, args, kwargs, node, None)
                 raise RaiseExc(may_raise if isinstance(may_raise, str) else "Exception", (), node)
-        self.ghost["heapver"] = self.ghost.get("heapver", 0) + 1
+        if short not in getattr(self.contract, "frame_preserving", ()):
+            self.ghost["heapver"] = self.ghost.get("heapver", 0) + 1
         return res
 
     def _havoc_cell(self, ref):
@@ -1892,7 +1902,16 @@ class Engine:
                 self.prove_item("inv.keep", "%s.%s" % (spec.name, label), f, assume_after=False)
             if var0 is not None:
                 var1 = spec.eval_variant(ctx, L)
-                self.oblig("variant", "%s.decreases" % spec.name, V.And(var0 >= 0, var1 < var0), assume_after=False)
+                if isinstance(var0, tuple):
+                    # lexicographic: every component bounded below by 0, some component decreases with all earlier ones equal
+                    dec = False
+                    same = True
+                    for a0, a1 in zip(var0, var1):
+                        dec = V.Or(dec, V.And(same, a1 < a0))
+                        same = V.And(same, V.eq(a1, a0))
+                    self.oblig("variant", "%s.decreases" % spec.name, V.And(V.And(*[a0 >= 0 for a0 in var0]), dec), assume_after=False)
+                else:
+                    self.oblig("variant", "%s.decreases" % spec.name, V.And(var0 >= 0, var1 < var0), assume_after=False)
             raise PathEnd()
         else:
             if kind == "for":
